@@ -105,6 +105,88 @@ def run(ctx, facts):
     ctx.rule("EST", C14.RULES["EST"])
     C14.est_template(ctx, facts, "jaccard::get_jaccard_index_estimate")
     ctor_sib(ctx, facts)
+    bounds_rule(ctx, facts)
+
+
+def _minmax(e, R):
+    """flatten nested max/min (method or function form): (core nodes, [(op, operand node)])"""
+    from .. import nf as _nf
+    e = _nf.strip_casts(e)
+    for _ in range(8):
+        if e["k"] == "Path" and "local" in e["res"] and R.lookup(e["res"]["local"], e) is not None:
+            e = _nf.strip_casts(R.lookup(e["res"]["local"], e))
+    if e["k"] == "MethodCall" and e["name"] in ("max", "min") and len(e["args"]) == 1:
+        a, b = e["recv"], e["args"][0]
+        op = e["name"]
+    elif e["k"] == "Call" and (e.get("callee", "").endswith("::max") or e.get("callee", "").endswith("::min")) and len(e["args"]) == 2:
+        a, b = e["args"]
+        op = e["callee"][-3:]
+    else:
+        return [(None, e)]
+    return [(op if o is None else o, x) for (o, x) in _minmax(a, R)] + [(op if o is None else o, x) for (o, x) in _minmax(b, R)]
+
+
+def bounds_rule(ctx, facts):
+    """BOUNDS: get_jaccard_bounds(p) returns (max(0, 2 (b^(p/2+1/2) - 1)/(b-1) - 1) [capped by the upper end], (b^p - 1)/(b-1)) —
+    the statement's formulas — decided as equalities of rational functions in which powers of b are merged
+    (b^(p/2)·b^(p/2) = b^p, b^(p/2)·sqrt(b) = b^(p/2+1/2)); pmh/ratfn.py"""
+    from .. import ratfn
+    from ..rulelib import resolver_of
+    ctx.rule("BOUNDS", "get_jaccard_bounds(p) returns J_up = (b^p - 1)/(b - 1) and J_low = max(0, 2(b^(p/2+1/2) - 1)/(b - 1) - 1), the lower end "
+                       "possibly capped by the upper one: equality of rational functions with powers of b merged")
+    fn = facts.fn(FID)
+    R = resolver_of(fn)
+    body = fn["hir"]
+    tail = nf.strip(body["expr"]) if "expr" in body else None
+    if tail is None or tail["k"] != "Tup" or len(tail["es"]) != 2 or len(fn.get("params", [])) < 2:
+        ctx.violation("BOUNDS", FID, "cannot-establish: returned pair", hirq.loc(fn), "get_jaccard_bounds does not end in a 2-tuple")
+        return
+    pname = hirq.show_pat(fn["params"][1]["pat"])
+    B = ratfn.pow_atom
+    one = (ratfn.ONE, ratfn.ONE)
+
+    def sub(a, b):
+        return (ratfn.p_add(ratfn.p_mul(a[0], b[1]), ratfn.p_mul(b[0], a[1]), -1), ratfn.p_mul(a[1], b[1]))
+
+    def div(a, b):
+        return (ratfn.p_mul(a[0], b[1]), ratfn.p_mul(a[1], b[0]))
+    bm1 = sub(B("1"), one)
+    JUP = div(sub(B("p"), one), bm1)
+    two = (ratfn.p_const(2), ratfn.ONE)
+    h = div(sub(B("p/2 + 1/2"), one), bm1)
+    JLOW = sub((ratfn.p_mul(two[0], h[0]), h[1]), one)
+
+    def rp(e):
+        try:
+            return ratfn.rat_pow(e, "self.b", R, rename={pname: "p"})
+        except ratfn.NotRational as ex:
+            return None
+    hi = rp(tail["es"][1])
+    if hi is not None and ratfn.equal_pow(hi, JUP):
+        ctx.ok("BOUNDS", FID, "upper end == (b^p - 1)/(b - 1)", hirq.loc(tail["es"][1]))
+    else:
+        ctx.violation("BOUNDS", FID, "upper end", hirq.loc(tail["es"][1]),
+                      "the upper end is `%s`, expected (b^p - 1)/(b - 1)" % (ratfn.show((ratfn.merge_powers(hi[0]), ratfn.merge_powers(hi[1])))[:140] if hi else nf.nf(tail["es"][1], True, res=R)[:140]))
+    parts = _minmax(tail["es"][0], R)
+    cores, zero, cap, bad = [], False, 0, []
+    for (op, x) in parts:
+        r_ = rp(x)
+        if r_ is None:
+            bad.append(nf.nf(x, True)[:60])
+        elif op == "max" and ratfn.equal_pow(r_, (ratfn.ZERO, ratfn.ONE)):
+            zero = True
+        elif op == "min" and ratfn.equal_pow(r_, JUP):
+            cap += 1
+        elif ratfn.equal_pow(r_, JLOW):
+            cores.append(x)
+        else:
+            bad.append("%s(%s)" % (op or "", ratfn.show((ratfn.merge_powers(r_[0]), ratfn.merge_powers(r_[1])))[:100]))
+    if len(cores) == 1 and zero and not bad:
+        ctx.ok("BOUNDS", FID, "lower end == max(0, 2(b^(p/2+1/2) - 1)/(b - 1) - 1)%s" % (" capped by the upper end" if cap else ""), hirq.loc(tail["es"][0]))
+    else:
+        ctx.violation("BOUNDS", FID, "lower end", hirq.loc(tail["es"][0]),
+                      "the lower end is not max(0, 2(b^(p/2+1/2) - 1)/(b - 1) - 1) [optionally .min(upper end)]: %s"
+                      % ("unexpected operand(s) %s" % bad if bad else ("no max with 0" if not zero else "%d core term(s)" % len(cores))))
 
 
 def ctor_sib(ctx, facts):
